@@ -368,8 +368,10 @@ static mut ANY_OOB: bool = false;
 fn stub_seg_length_at(_w: &Word, _p: SegPos) -> usize { unsafe { ANY_LEN } }
 /// contract of Word::out_of_bounds (Verus: out_of_bounds.is_word_boundary_test): a boolean function of (word, position)
 fn stub_out_of_bounds(_w: &Word, _p: SegPos) -> bool { unsafe { ANY_OOB } }
+/// in_bounds is the complement (Verus: law.bounds_are_complements)
+fn stub_in_bounds(_w: &Word, _p: SegPos) -> bool { unsafe { !ANY_OOB } }
 
-//% props=C05,C07 tier=quick kind=P timeout=900 pair=SubRule::match_seg_length clause="length matching = len_ok(run length) and the capture rule, for EVERY run length (Word::seg_length_at replaced by its Verus-proved contract)"
+//% props=C05,C07 tier=quick kind=P timeout=900 confirm_with=k4_match_seg_length pair=SubRule::match_seg_length clause="length matching = len_ok(run length) and the capture rule, for EVERY run length (Word::seg_length_at replaced by its Verus-proved contract)"
 #[kani::proof]
 #[kani::unwind(5)]
 #[kani::stub(crate::word::Word::seg_length_at, stub_seg_length_at)]
@@ -411,10 +413,11 @@ fn k4_match_seg_length_modular() {
     kani::cover!(n > 3 && want);
 }
 
-//% props=C03 tier=quick kind=P timeout=900 pair=SubRule::context_match,SubRule::context_match_set clause="`#` is exactly the out-of-bounds test and `$` exactly segment index 0 (not the word start when inserting before), alone and as set members, for EVERY word and position (Word::out_of_bounds replaced by its Verus-proved contract)"
+//% props=C03 tier=quick kind=P timeout=900 confirm_with=k3b_context_boundaries pair=SubRule::context_match,SubRule::context_match_set clause="`#` is exactly the out-of-bounds test and `$` exactly segment index 0 (not the word start when inserting before), alone and as set members, for EVERY word and position (Word::out_of_bounds replaced by its Verus-proved contract)"
 #[kani::proof]
 #[kani::unwind(5)]
 #[kani::stub(crate::word::Word::out_of_bounds, stub_out_of_bounds)]
+#[kani::stub(crate::word::Word::in_bounds, stub_in_bounds)]
 fn k3b_context_boundaries_modular() {
     let oob: bool = kani::any();
     unsafe { ANY_OOB = oob; }
